@@ -51,7 +51,7 @@ def main():
                 md.Trajectory(x.copy(), tp), md.Trajectory(x[:1].copy() + 0.1, tp), 0, atom_indices=np.arange(3), parallel=True).tobytes()
             calls["superpose(parallel) %dx%d" % (nf, na)] = lambda lib, x=x, tp=tp: md.Trajectory(x.copy(), tp).superpose(
                 md.Trajectory(x[:1].copy() + 0.1, tp), 0, parallel=True).xyz.tobytes()
-            calls["center_coordinates %dx%d" % (nf, na)] = lambda lib, x=x, tp=tp: (lambda t: t.xyz.tobytes() + t._rmsd_traces.tobytes())(
+            calls["center_coordinates %dx%d" % (nf, na)] = lambda lib, x=x, tp=tp: (lambda t: t.xyz.tobytes() + np.asarray(getattr(t, "_rmsd_traces", 0.0)).tobytes())(
                 md.Trajectory(x.copy(), tp).center_coordinates())
             calls["rmsf(parallel) %dx%d" % (nf, na)] = lambda lib, x=x, tp=tp: md.rmsf(
                 md.Trajectory(x.copy(), tp), md.Trajectory(x[:1].copy() + 0.1, tp), 0, parallel=True).tobytes()
